@@ -214,7 +214,10 @@ def b_callable(it, args, kwargs, node):
         return V.mk_bool(callable(v.obj))
     v = it.to_val(v)
     f = V.uf('py_callable', Val, V.B)
-    return Val.b(z3.If(z3.Or(Val.is_none(v), Val.is_i(v), Val.is_s(v), Val.is_b(v), Val.is_f(v), Val.is_t(v)),
+    cls = z3.Select(it.heap.get('cls'), Val.ref(v))
+    builtin_container = z3.And(Val.is_o(v), z3.Or(cls == V.LIST_CID, cls == V.DICT_CID, cls == V.SET_CID))
+    return Val.b(z3.If(z3.Or(Val.is_none(v), Val.is_i(v), Val.is_s(v), Val.is_b(v), Val.is_f(v), Val.is_t(v),
+                             builtin_container),
                        z3.BoolVal(False), f(v)))
 
 
@@ -275,8 +278,13 @@ def b_setattr(it, args, kwargs, node):
 
 @builtin(print)
 def b_print(it, args, kwargs, node):
-    it.st.ghost['stdout_writes'] = V.mk_int(1) if 'stdout_writes' not in it.st.ghost else \
-        Val.i(Val.iv(it.st.ghost['stdout_writes']) + 1)
+    """effect: the ghost sequence `printed` grows by one entry per call (the tuple of arguments)"""
+    g = it.st.heap.ghost
+    cur = g.get('printed')
+    if cur is None:
+        cur = z3.Const('G0_printed', SeqVal)
+    entry = V.mk_tuple([it.to_val(a) for a in args])
+    g['printed'] = z3.Concat(cur, z3.Unit(entry))
     return V.NONE
 
 
